@@ -233,10 +233,19 @@ def int_psd(rnd, rank, mag):
     return [[float(sum(w[i] * w[j] for w in ws)) for j in range(3)] for i in range(3)]
 
 
-def joint_blocks(np, rnd, k):
+def joint_blocks(np, rnd, k, pyth=None):
     """var1, var2, cov12 of one joint 6x6 covariance A A^T (cov12 is not symmetric)"""
     cls = k % 4
-    if cls == 3:      # exactly singular joint covariance (integer, rank 1 or 2)
+    if cls == 3 and pyth and k % 8 == 3:
+        # exactly singular, integer: the two stations differ by an exactly HORIZONTAL vector of the lattice station
+        # (integer multiples of the east and north axes), so the relative up variance is exactly zero
+        (ps, pc, pr), (ls, lc, lr) = pyth
+        east, north = (-ls, lc, 0), (-ps * lc, -ps * ls, pc * lr)
+        al, be = rnd.randint(-3, 3), rnd.randint(-3, 3)
+        a2 = [rnd.randint(-20, 20) for _ in range(3)]
+        a1 = [a2[i] + al * east[i] + be * north[i] for i in range(3)]
+        a = np.array([[float(x)] for x in a1 + a2])
+    elif cls == 3:    # exactly singular joint covariance (integer, rank 1 or 2)
         rank = rnd.choice([1, 2])
         a = np.array([[float(rnd.randint(-40, 40)) for _ in range(rank)] for _ in range(6)])
     else:
@@ -286,13 +295,13 @@ def lon_variants(lonp):
     return [x for x in (base, base - 360.0, base + 360.0) if -360.0 <= x <= 360.0]
 
 
-def station_plans(np, rnd, k):
+def station_plans(np, rnd, k, pyth=None):
     """three short traces per station: vectors (+ normal), covariance chain + ellipse, column + relative error"""
     v1, v2 = rand_vec(rnd, k), rand_vec(rnd, k + 2)
     V, _cls = psd_random(np, rnd, k)
     W, _cls2 = psd_random(np, rnd, k + 3)
     col = [abs(x) for x in rand_vec(rnd, 1)]
-    a1, a2, c12 = joint_blocks(np, rnd, k)
+    a1, a2, c12 = joint_blocks(np, rnd, k, pyth)
     pa = [("normal",), ("set", "vec", "local", v1), ("conv",), ("conv",), ("set", "vec", "cart", v2), ("conv",), ("conv",), ("conv",)]
     pb = [("set", "vcv", "cart", V), ("conv",), ("ellipse",), ("conv",), ("set", "vcv", "local", W), ("conv",), ("ellipse",), ("conv",)]
     pc = [("set", "col", "cart", col), ("conv",), ("set", "col", "local", col), ("conv",), ("set", "vcv", "cart", a1), ("relerr", a2, c12)]
@@ -413,7 +422,8 @@ def validate_k(ktr, split=KSPLIT):
         c = strip(ktr)
         c["qmod"] = [split, r]
         copies.append(c)
-    fails, res = tracecheck.validate("Trace_Local", "Trace_Local.cfg", copies, None, None, min_chunk=1, timeout=3000, par=split)
+    fails, res = tracecheck.validate("Trace_Local", "Trace_Local.cfg", copies, None, None, min_chunk=1, timeout=3000,
+                                     par=min(split, PAR))
     seen, out = set(), []
     for (i, l, clause) in fails:          # the same table: report a failing entry once
         if (l, clause) not in seen:
@@ -521,7 +531,7 @@ def run(ctx):
     for (la, lo) in stations_l:
         lat = pyth_deg(la)
         for lon in (lon_variants(lo) if (la, lo) in stations_l[:12] else [rnd.choice(lon_variants(lo))]):
-            for plan in station_plans(np, rnd, k):
+            for plan in station_plans(np, rnd, k, (la, lo)):
                 traces.append(R.station_trace((la, lo), lat, lon, plan))
             ctx.nontrivial(("lattice", la, lo, lon))
             k += 1
@@ -590,7 +600,7 @@ def run(ctx):
             raise tlc.MachineryError("anti-vacuity: action %s never taken in MC_Local (%s)" % (a, cov))
 
     # 7. binding self-test
-    ctx.extra["binding_selftest"] = selftest(traces, ktr, fails)
+    ctx.selftest(selftest, traces, ktr, fails)
 
     ctx.exhaustive = True
     ctx.rule = ("coverage-factor table: ALL integer dof -5..200 (exhaustive) + 4 non-integers; behaviours: every behaviour of "
